@@ -63,6 +63,15 @@ def main():
             meta['confirmed'] = False
         rc, out = sh('ctest --test-dir %s/_b -j8 --timeout 900 2>&1 | tail -4' % wt)
         meta['ran'].append({'cmd': 'ctest (patched)', 'rc': rc, 'out': out[-300:]})
+        if rc != 0:
+            # ProcessTest looks processes up by name and aborts ("multiple processes found") when another worktree's
+            # ProcessTest runs at the same moment: re-run the failed tests alone, up to 4 times
+            for _ in range(4):
+                time.sleep(3)
+                rc, out = sh('ctest --test-dir %s/_b --rerun-failed --timeout 900 2>&1 | tail -4' % wt)
+                meta['ran'].append({'cmd': 'ctest --rerun-failed (patched)', 'rc': rc, 'out': out[-300:]})
+                if rc == 0:
+                    break
         tests_ok = rc == 0
         d1 = rundemo('patched')
         meta['confirmed'] = bool(d0 == 0 and d1 != 0 and tests_ok)
